@@ -31,7 +31,7 @@ theorem isoDate_generic_roundtrip (y m d : Int) (hv : validDate y m d) :
   have hr : Representable .date ⟨invariantCulture, 5248, isoDateSteps⟩ (dateGetter y m d) [y, m, d] := by
     unfold Representable bucketValue
     have hu : (5248 : Nat) = (F.year ||| F.monthNum ||| F.dayOfMonth) := by decide
-    simp only [dateValue, hu, if_true, isoDateSteps, setSteps, setStep, Bucket.set, dateGetter]
+    simp only [dateValue, dateValueT, hu, if_true, isoDateSteps, setSteps, setStep, Bucket.set, dateGetter]
     simp (config := { decide := true }) only [if_false, isoDateValue_valid y m d hv', Option.map]
   have hne : outSteps (dateGetter y m d) isoDateSteps ≠ [] := by
     simp only [isoDateSteps, outSteps, outStep]
